@@ -824,25 +824,35 @@ def rule_contfresh(ctx):
     R = "C04.CONTFRESH"
     f = ctx.program.func("beat.continuity", R)
     s = ctx.S.get(f.qual)
-    outer = [lid for lid, (node, it) in s.loops.items() if any(x.op == "call" and call_name(x) == "beat._get_reference_beat_variations" for x in tm.walk(it))]
-    need(len(outer) == 1, R, "continuity: loop over the metrical variations not found")
-    L = outer[0]
+    def over_variations(it):
+        return any(x.op == "call" and call_name(x) == "beat._get_reference_beat_variations" for x in tm.walk(it))
+
+    # the per-variation scope: a `for` loop over the variations, or a comprehension over them whose element calls a helper
+    scopes = {x[1] for st in s.sites for x in st.pc if x[0] == "loop" and len(x) > 2 and hasattr(x[2], "op") and over_variations(x[2])}
+    need(len(scopes) == 1, R, "continuity: loop over the metrical variations not found")
+    L = next(iter(scopes))
     written = {}
     for m in s.by_kind("mutate"):
         if m.how == "setitem" and m.root and any(x[0] == "loop" and x[1] == L for x in m.pc):
             written.setdefault(m.root, m)
     need(len(written) >= 2, R, "continuity: work buffers not found")
+    helpers = [ctx.program.func(h).node for h in sorted(set(s.inlined)) if ctx.program.has_func(h)]
     allocs = {}
-    for node in ast.walk(f.node):
-        if isinstance(node, ast.Assign) and len(node.targets) == 1 and isinstance(node.targets[0], ast.Name) and isinstance(node.value, ast.Call) and ast.unparse(node.value.func) in ("np.zeros", "np.ones", "np.empty", "np.full"):
-            allocs.setdefault(node.targets[0].id, []).append(node)
-    loop_node = s.loops[L][0]
-    inside = {id(n) for n in ast.walk(loop_node)}
+    for owner in [f.node] + helpers:
+        for node in ast.walk(owner):
+            if isinstance(node, ast.Assign) and len(node.targets) == 1 and isinstance(node.targets[0], ast.Name) and isinstance(node.value, ast.Call) and ast.unparse(node.value.func) in ("np.zeros", "np.ones", "np.empty", "np.full"):
+                allocs.setdefault(node.targets[0].id, []).append((node, owner))
+    if L in s.loops:
+        scope_nodes = [s.loops[L][0]]
+    else:
+        scope_nodes = [n for n in ast.walk(f.node) if isinstance(n, (ast.ListComp, ast.GeneratorExp, ast.SetComp, ast.DictComp)) and "_get_reference_beat_variations" in ast.unparse(n.generators[0].iter)]
+    inside = {id(n) for sn in scope_nodes for n in ast.walk(sn)}
     for name, m in sorted(written.items()):
         if name not in allocs:
             continue
-        ok = all(id(a) in inside for a in allocs[name])
-        yield ob(R, f, "beat.continuity:fresh-buffer:%s" % name, ok, "%s is allocated inside the loop over metrical variations" % name if ok else "%s is allocated once outside the loop over metrical variations and written inside it: marks left by one variation survive into the next" % name, node=allocs[name][0])
+        # allocated in the body of the loop, or in a helper that is called once per variation
+        ok = all(id(a) in inside or owner is not f.node for a, owner in allocs[name])
+        yield ob(R, f, "beat.continuity:fresh-buffer:%s" % name, ok, "%s is allocated once per metrical variation" % name if ok else "%s is allocated once outside the loop over metrical variations and written inside it: marks left by one variation survive into the next" % name, node=allocs[name][0][0])
 
 
 RULES = [
